@@ -8,7 +8,6 @@ import os
 from hypothesis import strategies as st
 
 from ..core import Info, Violation, expect_raises, require, subcheck
-from ..gen import weighted
 from .. import dirs
 from ..oracles import c12_dirs as O
 
@@ -18,123 +17,143 @@ FIXES = [0, 1, 2, 5, 3]
 # ---------------------------------------------------------------- generators
 
 
-def _rows(draw, T, dim, k0, clean):
-    n = draw(weighted((1, st.just(0)), (6, st.integers(1, 4))))
-    tok = st.one_of(st.integers(0, 4), st.integers(0, 4), st.integers(0, 12))
-    rows = []
-    for _ in range(n):
-        t = draw(tok)
-        if dim != 2:
-            rows.append([t, -1, -1])
-            continue
-        kinds = ["ok"] * 5 + ["empty"] * 2 + ["none"] * 3 + ["negs"]
-        if not clean:
-            kinds += ["half_s", "half_e", "over", "over", "over", "reversed", "start_over"]
-        kind = draw(st.sampled_from(kinds))
-        if kind == "ok":
-            s = draw(st.integers(0, T))
-            e = draw(st.integers(s, T))
-        elif kind == "empty":
-            s = e = draw(st.integers(0, T))
-        elif kind == "none":
-            s = e = -1
-        elif kind == "negs":
-            s, e = draw(st.integers(-4, -1)), draw(st.integers(-4, -1))
-        elif kind == "half_s":
-            s, e = draw(st.integers(0, T + 1)), draw(st.integers(-3, -1))
-        elif kind == "half_e":
-            s, e = draw(st.integers(-3, -1)), draw(st.integers(0, T + 2))
-        elif kind == "over":
-            s = draw(st.integers(0, T))
-            e = T + draw(st.sampled_from([1, 2, max(k0, 1), k0 + 1, 5, 6]))
-        elif kind == "reversed":
-            s = draw(st.integers(1, T + 2))
-            e = draw(st.integers(0, s - 1))
-        else:  # start beyond T
-            s = T + draw(st.integers(1, 3))
-            e = s + draw(st.integers(0, 2))
-        rows.append([t, s, e])
-    return rows
+
+REPAIRABLE_MENU = ["ali_up", "ali_long", "ali_long", "ref_up", "ref_half", "ref_half", "ref_over", "ref_over"]
+FATAL_MENU = ["feat_dtype", "feat_width", "feat_rank", "ali_bad_dtype", "ali_short", "ali_rank", "ali_far",
+              "ref_bad_dtype", "ref_otherdim", "ref_rank", "ref_width", "ref_reversed", "ref_start_over", "ref_far"]
+STRUCT_MENU = ["ali_missing", "ref_missing"]
+
+
+def _clean_row(draw, T, dim):
+    t = draw(st.one_of(st.integers(0, 4), st.integers(0, 4), st.integers(0, 12)))
+    if dim != 2:
+        return [t, -1, -1]
+    kind = draw(st.sampled_from(["ok"] * 5 + ["empty"] * 2 + ["none"] * 3 + ["negs"]))
+    if kind == "ok":
+        s = draw(st.integers(0, T))
+        e = draw(st.integers(s, T))
+    elif kind == "empty":
+        s = e = draw(st.integers(0, T))
+    elif kind == "none":
+        s = e = -1
+    else:
+        s, e = draw(st.integers(-4, -1)), draw(st.integers(-4, -1))
+    return [t, s, e]
+
+
+def _tol(draw, k0):
+    """an overshoot around the tolerance: exactly k, k+1, or small / large"""
+    return draw(st.sampled_from([max(k0, 1), max(k0, 1), k0 + 1, 1, 2, 5, 6]))
 
 
 @st.composite
-def dir_case(draw, tier, p_clean=2, fix_choices=None, allow_missing=True):
-    """A directory description: 0..5 utterances with any combination of injected defects."""
+def dir_case(draw, tier, plans=("valid", "valid", "repairable", "repairable", "repairable", "any", "any", "fatal1"),
+             fix_choices=None, allow_missing=True):
+    """A directory description: 0..5 utterances with any combination of injected defects.
+
+    A *plan* is drawn first (no defect / only documented-repairable ones / any mixture / one fatal), then the
+    defects are placed on utterances, so that the classes the property singles out are frequent by construction.
+    """
     big = tier == "thorough"
-    n = draw(weighted((1, st.just(0)), (12, st.integers(1, 5 if not big else 7))))
+    n = dirs.wdraw(draw, (1, st.just(0)), (19, st.integers(1, 5 if not big else 7)))
     F = draw(st.integers(1, 3))
     fdt = draw(st.sampled_from(["float32", "float32", "float64"]))
-    ali_dir, ref_dir = draw(st.booleans()), draw(st.booleans())
+    ali_dir, ref_dir = draw(st.sampled_from([True, True, False])), draw(st.sampled_from([True, True, True, False]))
     ref_dim = draw(st.sampled_from([1, 2, 2]))
     fix = draw(st.sampled_from(fix_choices if fix_choices is not None else [None] + FIXES))
     k0 = fix if fix is not None else 1
-    # how dirty: 0 = no defect anywhere, 1 = few, 2 = many
-    dirty = draw(st.sampled_from([0] * p_clean + [1, 1, 1, 2]))
-    pd = {0: 0, 1: 1, 2: 3}[dirty]
-
-    def maybe(ok, *bad):
-        """ok with weight 8, each defect with weight pd"""
-        pool = [(8, ok)] + [(pd, b) for b in bad if pd]
-        return draw(weighted(*pool))
-
     utts = []
     for i in range(n):
-        T = draw(weighted((1, st.just(0)), (10, st.integers(1, 6))))
-        # ---- features
-        feat = {"T": T, "F": F, "dtype": fdt, "rank": 2}
-        fd = maybe(st.just("ok"), st.just("dtype"), st.just("width"), st.just("rank"))
-        if fd == "dtype":
-            feat["dtype"] = draw(st.sampled_from([d for d in ("float32", "float64", "int64", "float16") if d != fdt]))
-        elif fd == "width":
-            feat["F"] = draw(st.sampled_from([F + 1, F + 2] + ([F - 1] if F > 1 else [])))
-        elif fd == "rank":
-            feat["rank"] = draw(st.sampled_from([1, 3]))
-        # ---- alignment
-        ali = None
+        T = dirs.wdraw(draw, (1, st.just(0)), (12, st.integers(1, 6)))
+        ali = ref = None
         if ali_dir:
-            ad = maybe(st.just("ok"), st.just("dtype_up"), st.just("dtype_bad"), st.just("long"), st.just("long"),
-                       st.just("short"), st.just("rank"), st.just("missing") if allow_missing else st.just("ok"))
-            L = T
-            ali = {"dtype": "int64", "rank": 1}
-            if ad == "dtype_up":
-                ali["dtype"] = draw(st.sampled_from(["int32", "uint8"]))
-            elif ad == "dtype_bad":
-                ali["dtype"] = draw(st.sampled_from(["float32", "float64", "bool"]))
-            elif ad == "long":
-                L = T + draw(st.sampled_from([1, 2, max(k0, 1), k0 + 1, 5, 6]))
-                if draw(st.integers(0, 3)) == 0:
-                    ali["dtype"] = "int32"
-            elif ad == "short" and T > 0:
-                L = draw(st.integers(0, T - 1))
-            elif ad == "rank":
-                ali["rank"] = draw(st.sampled_from([0, 2]))
-            ali["vals"] = draw(st.lists(st.one_of(st.integers(0, 3), st.integers(0, 3), st.integers(0, 11)),
-                                        min_size=L, max_size=L))
-            if ad == "missing":
-                ali = None
-        # ---- reference
-        ref = None
+            ali = {"dtype": "int64", "rank": 1,
+                   "vals": draw(st.lists(st.one_of(st.integers(0, 3), st.integers(0, 3), st.integers(0, 11)),
+                                         min_size=T, max_size=T))}
         if ref_dir:
-            rd = maybe(st.just("ok"), st.just("dtype_up"), st.just("dtype_bad"), st.just("rows"), st.just("rows"),
-                       st.just("rows"), st.just("otherdim"), st.just("rank"), st.just("width"),
-                       st.just("missing") if allow_missing else st.just("ok"))
-            ref = {"dtype": "int64", "dim": ref_dim, "width": 3}
-            if rd == "dtype_up":
-                ref["dtype"] = draw(st.sampled_from(["int32", "uint8", "int32"]))
-            elif rd == "dtype_bad":
+            R = dirs.wdraw(draw, (1, st.just(0)), (6, st.integers(1, 4)))
+            ref = {"dtype": "int64", "dim": ref_dim, "width": 3, "rows": [_clean_row(draw, T, ref_dim) for _ in range(R)]}
+        utts.append({"feat": {"T": T, "F": F, "dtype": fdt, "rank": 2}, "ali": ali, "ref": ref})
+    plan = draw(st.sampled_from(list(plans)))
+    row_defects = {"ref_half", "ref_over", "ref_far", "ref_reversed", "ref_start_over"}
+
+    def usable(menu):
+        return [m for m in menu if not (m.startswith("ali_") and not ali_dir) and not (m.startswith("ref_") and not ref_dir)
+                and not (m in row_defects and ref_dim != 2)]
+
+    if plan == "valid" or n == 0:
+        todo = []
+    elif plan == "repairable":
+        menu = usable(REPAIRABLE_MENU)
+        todo = draw(st.lists(st.sampled_from(menu), min_size=1, max_size=4)) if menu else []
+    elif plan == "fatal1":
+        todo = [draw(st.sampled_from(usable(FATAL_MENU)))]
+    else:
+        menu = usable(REPAIRABLE_MENU + FATAL_MENU + (STRUCT_MENU if allow_missing else []))
+        todo = draw(st.lists(st.sampled_from(menu), min_size=1, max_size=4))
+    for what in todo:
+        u = utts[draw(st.integers(0, n - 1))]
+        T, feat, ali, ref = u["feat"]["T"], u["feat"], u["ali"], u["ref"]
+        if what == "feat_dtype":
+            feat["dtype"] = draw(st.sampled_from([d for d in ("float32", "float64", "int64", "float16") if d != fdt]))
+        elif what == "feat_width":
+            feat["F"] = draw(st.sampled_from([F + 1, F + 2] + ([F - 1] if F > 1 else [])))
+        elif what == "feat_rank":
+            feat["rank"] = draw(st.sampled_from([1, 3]))
+        elif what.startswith("ali_"):
+            if ali is None:
+                continue
+            if what == "ali_up":
+                ali["dtype"] = draw(st.sampled_from(["int32", "uint8"]))
+            elif what == "ali_bad_dtype":
+                ali["dtype"] = draw(st.sampled_from(["float32", "float64", "bool"]))
+            elif what in ("ali_long", "ali_far"):
+                d = _tol(draw, k0) if what == "ali_long" else k0 + draw(st.integers(1, 3))
+                ali["vals"] = ali["vals"][:T] + draw(st.lists(st.integers(0, 3), min_size=d, max_size=d))
+            elif what == "ali_short":
+                if T > 0:
+                    ali["vals"] = ali["vals"][:draw(st.integers(0, T - 1))]
+            elif what == "ali_rank":
+                ali["rank"] = draw(st.sampled_from([0, 2]))
+            elif what == "ali_missing":
+                u["ali"] = None
+        else:
+            if ref is None:
+                continue
+            if what == "ref_up":
+                ref["dtype"] = draw(st.sampled_from(["int32", "int32", "uint8"]))
+            elif what == "ref_bad_dtype":
                 ref["dtype"] = draw(st.sampled_from(["float32", "bool"]))
-            elif rd == "otherdim":
+            elif what == "ref_otherdim":
                 ref["dim"] = 3 - ref_dim
-            elif rd == "rank":
+                if ref["dim"] == 2:
+                    ref["rows"] = [_clean_row(draw, T, 2) for _ in ref["rows"]]
+            elif what == "ref_rank":
                 ref["dim"] = draw(st.sampled_from([0, 3]))
-            elif rd == "width":
+            elif what == "ref_width":
                 ref["dim"], ref["width"] = 2, draw(st.sampled_from([1, 2, 4]))
-            ref["rows"] = _rows(draw, T, ref["dim"], k0, clean=(rd != "rows"))
-            if rd == "rows" and draw(st.integers(0, 3)) == 0:
-                ref["dtype"] = "int32"
-            if rd == "missing":
-                ref = None
-        utts.append({"feat": feat, "ali": ali, "ref": ref})
+            elif what == "ref_missing":
+                u["ref"] = None
+            else:  # a defective row (only meaningful for 2-D references)
+                t = draw(st.integers(0, 4))
+                if what == "ref_half":
+                    if draw(st.booleans()):
+                        s, e = draw(st.integers(0, T + 1)), draw(st.integers(-3, -1))
+                    else:
+                        s, e = draw(st.integers(-3, -1)), draw(st.integers(0, T + 2))
+                elif what == "ref_over":
+                    s = draw(st.one_of(st.integers(0, T), st.just(T)))
+                    e = T + _tol(draw, k0)
+                elif what == "ref_far":
+                    s, e = draw(st.integers(0, T)), T + k0 + draw(st.integers(1, 3))
+                elif what == "ref_reversed":
+                    s = draw(st.integers(1, T + 2))
+                    e = draw(st.integers(0, s - 1))
+                else:  # start beyond T
+                    s = T + draw(st.integers(1, 3))
+                    e = s + draw(st.integers(0, 2))
+                pos = draw(st.integers(0, len(ref["rows"])))
+                ref["rows"].insert(pos, [t, s, e] if ref["dim"] == 2 else [t, -1, -1])
     return {
         "prefix": draw(st.sampled_from(["", "", "p_"])),
         "suffix": draw(st.sampled_from([".pt", ".pt", ".x"])),
@@ -245,10 +264,10 @@ def _fix_step(ds, data_dir, case, model, disk, k):
 
 
 def _strict_strategy(tier):
-    return dir_case(tier, p_clean=3, fix_choices=[None])
+    return dir_case(tier, plans=("valid", "valid", "repairable", "any", "any", "any", "any", "fatal1"), fix_choices=[None])
 
 
-@subcheck("C12", "strict_accept", _strict_strategy, quick=1200, thorough=30000,
+@subcheck("C12", "strict_accept", _strict_strategy, quick=1000, thorough=30000,
           doc="directories with any combination of injected defects; strict validation raises ValueError iff the "
               "predicate written from conditions 1-6.3.2 rejects; directory untouched; discovery by prefix/suffix",
           required_classes=["valid", "defects_1", "defects_2", "defects_3plus", "defect_ref_over", "defect_ali_long",
@@ -276,7 +295,8 @@ def _strict_check(case):
 
 
 def _fix_strategy(tier):
-    return dir_case(tier, p_clean=1, fix_choices=FIXES + ([4, 7] if tier == "thorough" else []))
+    return dir_case(tier, plans=("valid", "repairable", "repairable", "repairable", "repairable", "any", "any", "any", "fatal1"),
+                    fix_choices=FIXES + ([4, 7] if tier == "thorough" else []))
 
 
 @subcheck("C12", "fix_repair", _fix_strategy, quick=1500, thorough=40000,
@@ -319,9 +339,9 @@ def _fix_check(case):
 
 @st.composite
 def _history_case(draw, tier):
-    base = draw(dir_case(tier, p_clean=4, fix_choices=[1], allow_missing=False).filter(lambda c: c["utts"]))
+    base = draw(dir_case(tier, plans=("valid", "valid", "valid", "repairable"), fix_choices=[1], allow_missing=False).filter(lambda c: c["utts"]))
     n = len(base["utts"])
-    donor = draw(dir_case(tier, p_clean=0, fix_choices=FIXES, allow_missing=False).filter(lambda c: c["utts"]))
+    donor = draw(dir_case(tier, plans=("repairable", "repairable", "any", "fatal1"), fix_choices=FIXES, allow_missing=False).filter(lambda c: c["utts"]))
     ops = []
     m = draw(st.integers(2, 7 if tier == "quick" else 12))
     for _ in range(m):
@@ -351,7 +371,7 @@ def _transplant(case, i, part, src):
     return part, copy.deepcopy(src[part])
 
 
-@subcheck("C12", "history", _history_case, quick=500, thorough=15000,
+@subcheck("C12", "history", _history_case, quick=400, thorough=15000,
           doc="validate / fix(k) / corrupt-one-file / report histories on one directory and one data set object; "
               "every step is compared with the reference model (accept, repair, raise, recount)",
           required_classes=["fix_after_corrupt", "repaired", "unrepairable"])
@@ -449,13 +469,12 @@ def _compare_report(got, want):
 
 def _info_strategy(tier):
     return st.fixed_dictionaries({
-        "dir": st.one_of(dir_case(tier, p_clean=8, fix_choices=FIXES, allow_missing=True),
-                         dir_case(tier, p_clean=1, fix_choices=FIXES, allow_missing=False)),
+        "dir": dir_case(tier, plans=("valid",) * 5 + ("repairable",) * 3 + ("any", "fatal1"), fix_choices=FIXES),
         "mode": st.sampled_from(["none", "none", "strict", "fix", "fix"]),
     })
 
 
-@subcheck("C12", "info_report", _info_strategy, quick=900, thorough=25000,
+@subcheck("C12", "info_report", _info_strategy, quick=800, thorough=25000,
           doc="get-torch-spect-data-dir-info (no flag / --strict / --fix k) on valid, repairable and invalid "
               "directories: raises iff validation must; output == key-by-key recount of the (repaired) stored "
               "tensors by the documented key definitions; --fix k repairs on disk like fix=k",
@@ -670,7 +689,7 @@ def _strip_strategy(tier):
     })
 
 
-@subcheck("C12", "write_hyp_strip", _strip_strategy, quick=800, thorough=20000,
+@subcheck("C12", "write_hyp_strip", _strip_strategy, quick=600, thorough=20000,
           doc="hypotheses garbage + [sos] + body + [eos] + garbage (garbage may repeat sos before / eos after): "
               "stored file == body as a long tensor (documented: drop through the last sos, from the first eos)",
           required_classes=["garbage_before", "garbage_after", "empty_body"])
